@@ -38,9 +38,10 @@ import (
 type vPart struct {
 	Neg   bool   `json:"neg"`
 	IsVar bool   `json:"isvar"`
-	Num   int64  `json:"num"`   // constant (numbers) or nanoseconds relative to the reference time (times)
-	VSub  string `json:"vsub"`  // variable: sub-query name
-	VName string `json:"vname"` // variable: name
+	IsAbs bool   `json:"isabs,omitempty"` // times: an absolute time (as opposed to a duration)
+	Num   int64  `json:"num"`             // constant (numbers) or nanoseconds relative to the reference time (times)
+	VSub  string `json:"vsub"`            // variable: sub-query name
+	VName string `json:"vname"`           // variable: name
 }
 
 type vBound struct {
@@ -211,7 +212,7 @@ func (d *vDumper) term(t *queryTerm) (*vAtom, error) {
 							dd = d.ref
 						}
 						tt = time.Date(dd.Year(), dd.Month(), dd.Day(), tt.Hour(), tt.Minute(), tt.Second(), tt.Nanosecond(), d.loc)
-						b.Parts = append(b.Parts, vPart{Neg: neg, Num: int64(tt.Sub(d.ref))})
+						b.Parts = append(b.Parts, vPart{Neg: neg, IsAbs: true, Num: int64(tt.Sub(d.ref))})
 					case p.Variable != nil:
 						if p.Variable.Name != "ftime" && p.Variable.Name != "ltime" {
 							return nil, fmt.Errorf("bad time variable")
@@ -1175,6 +1176,8 @@ func (n *vNames) expr(e *vExpr, w *strings.Builder) {
 						}
 						if p.IsVar {
 							fmt.Fprintf(w, "%s v %d %s ", sign, n.subs[p.VSub], p.VName)
+						} else if p.IsAbs {
+							fmt.Fprintf(w, "%s a %d ", sign, p.Num)
 						} else {
 							fmt.Fprintf(w, "%s n %d ", sign, p.Num)
 						}
